@@ -130,6 +130,7 @@ pub fn eval(cat: &Catalog, case: &Case) -> Evaluated {
     match case.clause.as_str() {
         "sinks" => return crate::seams::eval_sinks(cat, case),
         "sinks-history" => return crate::seams::eval_sinks_history(cat, case),
+        "prim-roundtrip" => return crate::seams::eval_prim_roundtrip(case),
         "sources" | "eof-reject" => return crate::seams::eval_sources(case),
         "zip-roundtrip" => return crate::zip::eval_roundtrip(case),
         "zip-truncation" | "zip-damaged" => return crate::zip::eval_damaged(case),
